@@ -470,6 +470,20 @@ def r19_8(ctx, rep, roles, meths):
         if helpers:
             rep.obligation(any(names[i] in helpers for i in sends), "C19/R19.8/target-skipped", "a returning path of the round does not enter the send phase",
                            where(co, row.site[1]), sample="the send phase (helper) is entered on every returning path")
+            # a helper that is handed ONE iterator of targets (`selected.into_iter().chain(dead_opt).chain(seed_opt)`): the iterator
+            # must be built from all three results of the selection — the selected peers, the dead pick and the seed pick
+            for e in row.calls():
+                if e[1] in helpers and len(e[2]) == 2 and (fx.fns[e[1]].get("inputs") or ["", ""])[1].startswith("impl "):
+                    arg = T.resolve_locals(eng, row.store, e[2][1])
+                    srcs = set()
+                    for x in T.subterms(arg):
+                        if x[0] == "proj" and x[2][0] == "f" and str(x[2][2]) in ("0", "1", "2"):
+                            base = T.resolve_locals(eng, row.store, x[1])
+                            if base[0] == "call" and "select_nodes_for_gossip" in base[1]:
+                                srcs.add(str(x[2][2]))
+                    rep.obligation(srcs == {"0", "1", "2"}, "C19/R19.8/target-skipped",
+                                   "the targets handed to the send helper are built from results %s of the selection, not from all three (peers, dead pick, seed pick)" % sorted(srcs),
+                                   where(co, row.site[1]), sample="send helper receives peers + dead pick + seed pick")
     # the body that contains the sends
     phase = [(co, rows)]
     if helpers:
@@ -489,7 +503,8 @@ def r19_8(ctx, rep, roles, meths):
                 n_ret += 1
                 gs = [e for e in row.calls() if e[1] == gossip]
                 # the loop over the selected targets ran to exhaustion; each optional target (dead / seed) that was picked is attempted
-                exhausted = any(c[0] == "variant" and c[1][0] == "call" and c[1][1].endswith("Iterator>::next") and c[2] == "None" and c[3] for c in row.cond)
+                is_next = lambda n: n.endswith("Iterator>::next") or sym.strip_all_generics(n) == "std::iter::Iterator::next"     # resolved, or on a generic `impl Iterator`
+                exhausted = any(c[0] == "variant" and c[1][0] == "call" and is_next(c[1][1]) and c[2] == "None" and c[3] for c in row.cond)
                 picked = [c for c in row.cond if c[0] == "variant" and c[3] and c[2] == "Some" and not is_iter_or_await(c[1])]
                 rep.obligation(exhausted and len(gs) == len(picked), "C19/R19.8/target-skipped",
                                "a returning path leaves the target loop early or attempts %d of %d picked optional targets" % (len(gs), len(picked)),
@@ -497,7 +512,8 @@ def r19_8(ctx, rep, roles, meths):
             elif row.exit == "backedge":
                 g = [e for e in row.calls() if e[1] == gossip]
                 # the loop over the selected targets comes after the heartbeat / GC of the round (loops before them build the pools)
-                in_target_loop = any(c[0] == "variant" and c[1][0] == "call" and c[1][1].endswith("Iterator>::next") and c[2] == "Some" and c[3] for c in row.cond) and (
+                is_next = lambda n: n.endswith("Iterator>::next") or sym.strip_all_generics(n) == "std::iter::Iterator::next"
+                in_target_loop = any(c[0] == "variant" and c[1][0] == "call" and is_next(c[1][1]) and c[2] == "Some" and c[3] for c in row.cond) and (
                     helpers or any(e[1] == hb for e in row.calls()))
                 if in_target_loop:
                     nb += 1
@@ -505,7 +521,8 @@ def r19_8(ctx, rep, roles, meths):
                                    sample="one attempt per selected target, then next target whatever the result")
             else:
                 rep.obligation(False, "C19/R19.8/other-exit", "the send phase has a path that neither returns nor loops (%s)" % row.exit, where(pco, row.site[1]))
-    rep.floor("returning-paths", n + n_ret, 4)
+    # (with a send helper the optional targets are no longer separate paths of the round)
+    rep.floor("returning-paths", n + n_ret, 2 if helpers else 4)
     rep.floor("target-loop-paths", nb, 2)
     rep.instance(n + n_ret + nb)
 
@@ -559,7 +576,9 @@ def r19_9(ctx, rep, roles, meths):
                 ok = sym.fmt(T.resolve_locals(eng, row.store, prod[0][2][1])) == "arg1.message"
             rep.obligation(ok, "C19/R19.9/%s" % meth, "%s: %s" % (meth, detail), where(co, row.site[1]),
                            sample="%s: one %s; %s" % (meth, producer.split("::")[-1], "reply sent to the source iff Some" if optional else "SYN sent to the chosen address"))
-    rep.floor("returning-paths", n, 4 if "handle_message" not in meths else 5)
+    # at least: reply present / absent for the answering step, and one sending path of gossip (two when the send result goes
+    # through `?` instead of being returned as it is — not a difference in behaviour)
+    rep.floor("returning-paths", n, 3 if "handle_message" not in meths else 4)
     rep.instance(n)
 
 
